@@ -273,3 +273,98 @@ pub fn k_replay_unit_recognition() {
 }
 #[cfg(kani)]
 pub fn k_replay_unit_recognition() {}
+
+/// the format setters natively: (index of the setter): called in both orders with values that collide with the current ones
+#[cfg(not(kani))]
+pub fn k_replay_setters() {
+    let _which: u8 = vany();
+    let mut a = crate::SmartCalc::default();          // default: ',' decimal, '.' thousands
+    a.set_thousand_separator(",".to_string());
+    a.set_decimal_seperator(".".to_string());
+    let mut b = crate::SmartCalc::default();
+    b.set_decimal_seperator(".".to_string());
+    b.set_thousand_separator(",".to_string());
+    for calc in [&a, &b].iter() {
+        let cfg = crate::smartcalc::verif_k_local::config_of(calc);
+        assert!(cfg.decimal_seperator == "." && cfg.thousand_separator == ",");
+    }
+    let mut c = crate::SmartCalc::default();
+    c.set_number_configuration(7, false, false);
+    c.set_percentage_configuration(0, false, true);
+    c.set_money_configuration(true, false);
+    let cfg = crate::smartcalc::verif_k_local::config_of(&c);
+    assert!(cfg.number_config.decimal_digits == 7 && !cfg.number_config.remove_fract_if_zero && !cfg.number_config.use_fract_rounding);
+    assert!(cfg.percentage_config.decimal_digits == 0 && !cfg.percentage_config.remove_fract_if_zero && cfg.percentage_config.use_fract_rounding);
+    assert!(cfg.money_config.remove_fract_if_zero && !cfg.money_config.use_fract_rounding);
+}
+#[cfg(kani)]
+pub fn k_replay_setters() {}
+
+/// a re-used session keeps its variables across set_language natively
+#[cfg(not(kani))]
+pub fn k_replay_set_language() {
+    let calc = crate::SmartCalc::default();
+    let mut session = Session::new();
+    session.set_language("en".to_string());
+    session.set_text("rate = 5".to_string());
+    let _ = calc.execute_session(&session);
+    session.set_language("tr".to_string());
+    session.set_text("rate * 2".to_string());
+    let r = calc.execute_session(&session);
+    let out = match &r.lines[0] { Some(l) => match &l.result { Ok(x) => x.output.clone(), Err(e) => e.clone() }, None => String::new() };
+    assert!(out == "10");
+}
+#[cfg(kani)]
+pub fn k_replay_set_language() {}
+
+/// one API rule, two places of the line match its pattern: both are rewritten, each from its own number
+#[cfg(not(kani))]
+pub fn k_replay_api_rule_places() {
+    use crate::{RuleTrait, SmartCalc, SmartCalcConfig};
+    struct Places;
+    impl RuleTrait for Places {
+        fn name(&self) -> String { "places".to_string() }
+        fn call(&self, config: &SmartCalcConfig, fields: &alloc::collections::BTreeMap<String, TokenType>) -> Option<TokenType> {
+            match fields.get("n") { Some(TokenType::Number(n, _)) => Some(TokenType::Money(n * 10.0, config.get_currency("usd".to_string())?)), _ => None }
+        }
+    }
+    let mut calc = SmartCalc::default();
+    assert!(calc.add_rule("en".to_string(), alloc::vec!["{NUMBER:n} foo".to_string()], Rc::new(Places)));
+    let r = calc.execute("en", "1 foo + 2 foo");
+    let out = match &r.lines[0] { Some(l) => match &l.result { Ok(x) => x.output.clone(), Err(e) => e.clone() }, None => String::new() };
+    assert!(out == "$30,00");
+}
+#[cfg(kani)]
+pub fn k_replay_api_rule_places() {}
+
+/// a user-defined family whose steps do not commute natively: (source index, target index): a to b equals the declared
+/// programs applied one after the other
+#[cfg(not(kani))]
+pub fn k_replay_unit_chain() {
+    let a: u8 = vany(); let b: u8 = vany();
+    vassume(a >= 1 && a <= 4 && b >= 1 && b <= 4);
+    let mut calc = crate::SmartCalc::default();
+    calc.set_decimal_seperator(".".to_string());
+    calc.set_thousand_separator(",".to_string());
+    assert!(calc.add_dynamic_type("chain"));
+    let names = ["", "ua", "ub", "uc", "ud"];
+    let up = ["", "{value} * 2 + 1", "{value} * 3", "{value} + 5", "{value}"];
+    let down = ["", "{value}", "{value} * 2 + 1", "{value} * 3", "{value} + 5"];
+    for i in 1..5usize {
+        assert!(calc.add_dynamic_type_item("chain", i, &alloc::format!("{{value}} {}", names[i]), alloc::vec![&alloc::format!("{{NUMBER:value}} {}", names[i])[..]], up[i], down[i], alloc::vec![names[i].to_string()], Some(0), None, None));
+    }
+    let f_up = |i: usize, v: f64| match i { 1 => v * 2.0 + 1.0, 2 => v * 3.0, 3 => v + 5.0, _ => v };
+    let f_down = |i: usize, v: f64| match i { 2 => v * 2.0 + 1.0, 3 => v * 3.0, 4 => v + 5.0, _ => v };
+    for amount in [1.0f64, 4.0].iter() {
+        let mut want = *amount;
+        let (mut i, t) = (a as usize, b as usize);
+        while i != t {
+            if i < t { want = f_up(i, want); i += 1; } else { want = f_down(i, want); i -= 1; }
+        }
+        let r = calc.execute("en", alloc::format!("{} {} to {}", amount, names[a as usize], names[b as usize]));
+        let out = match &r.lines[0] { Some(l) => match &l.result { Ok(x) => x.output.clone(), Err(e) => e.clone() }, None => String::new() };
+        assert!(out == alloc::format!("{} {}", want, names[b as usize]));
+    }
+}
+#[cfg(kani)]
+pub fn k_replay_unit_chain() {}
